@@ -49,7 +49,28 @@ def _structural_desc(shape):
     return anc, prod
 
 
-def check_program(prog, provided, select, runner, ref_prog=None):
+def renamed_form(prog):
+    """The same program with every function node DERIVED instead of defined: the function is written with its parameter
+    names permuted (rotation; a single parameter gets a fresh definition name), the node is used once (cached lookup
+    tables filled) and then renamed back in ONE with_inputs batch (a swap / rotation: the new names overlap the old
+    ones).  Call-log arguments are recorded under the logical names, so the flat reference applies unchanged."""
+    import copy as _copy
+
+    p = _copy.deepcopy(prog)
+    for s in p["nodes"]:
+        P = list(s.get("params", []))
+        if s["kind"] != "fn" or not P:
+            continue
+        sigma = {q: q + "_d" for q in P} if len(P) == 1 else {q: P[(i + 1) % len(P)] for i, q in enumerate(P)}
+        d = s.get("defaults", {})
+        s["defaults"] = {sigma[q]: v for q, v in d.items()}
+        s["params"] = [sigma[q] for q in P if q not in d] + [sigma[q] for q in P if q in d]
+        s["arg_alias"] = {sigma[q]: q for q in P}
+        s["rename_in_chain"] = [{sigma[q]: q for q in P}]
+    return p
+
+
+def check_program(prog, provided, select, runner, ref_prog=None, graph_select=None):
     """Run one program on the implementation and compare with the reference.  Returns [(sig, msg)].
     ``ref_prog``: the flat program the reference evaluates when ``prog`` is a nested form of it."""
     out = []
@@ -57,6 +78,8 @@ def check_program(prog, provided, select, runner, ref_prog=None):
     prog = ref_prog or prog
     ref_values, ref_calls, unsat = eval_dag(prog, provided)
     exp_values = ref_values if select is None else {k: v for k, v in ref_values.items() if k in select}
+    if graph_select is not None:
+        exp_values = {k: v for k, v in exp_values.items() if k in graph_select}
     h = H()
     try:
         g = build(run_prog, h)
@@ -213,6 +236,12 @@ def run_shard(shard):
                             acc.violation(sig, {"program": prog, "provided": jsonable(prov), "select": select, "runner": runner}, msg)
                         # the same acyclic graph with its first consumer of a bound input wrapped as a nested graph whose own
                         # binding differs: the enclosing graph's binding is the one in force (bound value precedence through nesting)
+                        if not omit and not none_variant and order == ords[0]:
+                            rf = renamed_form(prog)
+                            acc.evaluations += 1
+                            acc.counters["runs_with_nodes_derived_by_rename_after_use"] += 1
+                            for sig, msg in check_program(rf, prov, select, runner, ref_prog=prog):
+                                acc.violation({**sig, "derived_nodes": True}, {"program": rf, "ref_program": prog, "provided": jsonable(prov), "select": select, "runner": runner}, "nodes derived by a one-batch rename after use: " + msg)
                         bound_exts = [e for e, srcs in ext_src.items() if "B" in srcs and "D" not in srcs]  # (default + inner binding is judged by C05)
                         if bound_exts and not omit and not none_variant and order == ords[0]:
                             from . import c05
@@ -226,6 +255,26 @@ def run_shard(shard):
                             acc.counters["runs_nested_with_inner_and_outer_binding"] += 1
                             for sig, msg in check_program(nested, prov, None, runner, ref_prog=prog):
                                 acc.violation({**sig, "nested": True}, {"program": nested, "ref_program": prog, "provided": jsonable(prov), "select": None, "runner": runner}, "nested form with an inner binding of the same name: " + msg)
+                            # ... and with the binding living ONLY on the inner graph (same token), the enclosing graph carrying a
+                            # graph-level select that leaves the wrapper's outputs out: the wrapper still runs, with the inner binding
+                            if sum(1 for ps, _ in shape if e0_ in ps) == 1 and "P" not in ext_src[e0_]:
+                                import copy as _copy
+
+                                n2 = _copy.deepcopy(nested)
+                                w2 = next(sp for sp in n2["nodes"] if sp["id"] == "w1")
+                                w2["inner"]["bind"] = {e0_: prog["bind"][e0_]}
+                                n2["bind"] = {k: v for k, v in prog["bind"].items() if k != e0_}
+                                if not n2["bind"]:
+                                    del n2["bind"]
+                                others = [o for sp in prog["nodes"] if sp["id"] != prog["nodes"][j]["id"] for o in sp.get("outs", [])]
+                                for gsel in ([None] + ([others] if others else [])):
+                                    n3 = _copy.deepcopy(n2)
+                                    if gsel is not None:
+                                        n3["select"] = list(gsel)
+                                    acc.evaluations += 1
+                                    acc.counters["runs_nested_with_inner_binding_only" + ("_and_graph_select" if gsel else "")] += 1
+                                    for sig, msg in check_program(n3, prov, None, runner, ref_prog=prog, graph_select=gsel):
+                                        acc.violation({**sig, "nested": True, "inner_binding_only": True, "graph_select": gsel is not None}, {"program": n3, "ref_program": prog, "provided": jsonable(prov), "select": None, "graph_select": gsel, "runner": runner}, "nested form, binding on the inner graph only" + (", graph-level select excluding the wrapper" if gsel else "") + ": " + msg)
     return acc
 
 
@@ -234,4 +283,4 @@ def coverage_extra(acc, tier, seed):
 
 
 def replay(rep):
-    return [m for _, m in check_program(rep["program"], rep["provided"], rep.get("select"), rep["runner"], rep.get("ref_program"))]
+    return [m for _, m in check_program(rep["program"], rep["provided"], rep.get("select"), rep["runner"], rep.get("ref_program"), rep.get("graph_select"))]
